@@ -6,7 +6,15 @@ import numpy as np
 from .. import proto
 from ..core import Check, Problem, register
 
-REL_TOL = 1e-9          # relative to `scale` (values) / `scale**2` (covariances, normal equations)
+# review R2 — tolerances re-based on measurements on the clean tree (21 000 generated cases, seeds 0..3, no F10 blow-up among them):
+#   |fit_transform / transform(train) - exact least-squares residual| / scale      <= 1.3e-13  (rank-deficient blocks; 8.6e-14 full rank)
+#   |transform(new) - exact| / (scale * max|beta|)                                   <= 1.5e-13
+#   |cov(output, sensitive)| / (scale^2 n)                                           <= 4.9e-15
+#   normal-equation residual of the fitted beta_ / (scale^2 n max|beta_|)            <= 1.2e-15
+#   |fit_transform - model transform(mean_, beta_, alpha)| / (scale max|beta_|)      <= 2.0e-16 ; sensitive_mean_ : 0
+REL_TOL = 1e-11         # values vs the exact oracle, relative to `scale`            (was 1e-9; 77 x the measured maximum)
+REL_TOL2 = 5e-13        # covariances / normal equations, relative to `scale**2 * n` (was 1e-9; 100 x)
+REL_TOL_MODEL = 2e-14   # implementation vs the Lean model evaluated on the FITTED state, relative to `scale * max|beta_|` (100 x)
 NAMES = ["age", "b", "zip", "s0", "x1", "a", "income", "f", "c2", "g"]
 ALPHAS = ["1", "1", "1", "0", "1/4", "1/2", "3/4"]
 
@@ -201,7 +209,8 @@ class CHECK(Check):
             "non-trivial = at least one non-constant sensitive column")
     explanation = ("theorems over the Lean model CorrRemover for all inputs; numpy.linalg.lstsq enters only through the normal "
                    "equations (checked on every case with the fitted beta_); correspondence: sensitive_mean_, fit_transform, "
-                   "transform(train), transform(new) vs compiled driver within 1e-9*scale, both for the hand-written model (`corr.*`) "
+                   "transform(train), transform(new) vs compiled driver within 2e-14*scale*max|beta_| (oracle relations: 1e-11*scale for values, "
+                   "5e-13*scale^2*n for covariances / normal equations; measured maxima 1.3e-13 / 4.9e-15 / 2e-16), both for the hand-written model (`corr.*`) "
                    "and for the model re-built from the lifted source (`corrsrc.*`, incl. the lookup of ids by name / position); two "
                    "different exact solutions of rank-deficient problems are pushed through the model (same output); oracle: exact "
                    "Gram-Schmidt residual and sample covariance in Fractions. Lifted-model-vs-oracle disagreements are HARNESS-ERRORs "
@@ -213,7 +222,7 @@ class CHECK(Check):
                "(`S - mean` row-wise, `.dot(beta_)` as the row-by-matrix product, np.atleast_2d as identity on 2-d blocks), list / dict "
                "comprehensions of _split_X / _create_lookup; every other shape is refused")
     assumptions = ("n >= 2 rows, at least one sensitive and one other column, all values finite",
-                   "float rounding of lstsq on rank-deficient blocks stays below 1e-9*scale")
+                   "float rounding of lstsq on rank-deficient blocks stays below 1e-11*scale (measured <= 1.3e-13*scale; F10 is the known exception)")
 
     # ---------------------------------------------------------------- generation
     def _val(self, rng):
@@ -401,7 +410,8 @@ class CHECK(Check):
         sp = Spec(case)
         probs = []
         tol = REL_TOL * sp.scale
-        tol2 = REL_TOL * sp.scale ** 2 * sp.n
+        tol2 = REL_TOL2 * sp.scale ** 2 * sp.n
+        tolm = REL_TOL_MODEL * sp.scale
         # ---- model vs oracle (exact) ------------------------------------------------
         if mo is not None:
             if len(mo) < 12 or "bad-op" in mo[:5] or "bad-op" in mo[10:12]:
@@ -487,7 +497,7 @@ class CHECK(Check):
                                      "C15.isLstsq"))
         exp_new = to_rows(sp.new_out(beta_ref), sp.nn)
         d = maxdiff(o["new"], exp_new)
-        if d is None or d > tol * bmax * 4:
+        if d is None or d > tol * bmax:
             probs.append(Problem("property", f"transform(new data) differs by {d} from Znew - alpha*(Snew - training means)*{what}",
                                  "C15.transform_affine"))
         # ---- implementation vs model --------------------------------------------------
@@ -501,7 +511,7 @@ class CHECK(Check):
             if "bad-op" in mo[16:19] or "bad-op" in mo[5:10]:
                 return probs + [model_problem(f"the model re-built from the lifted source rejects the fitted state: {mo[16:]}")]
             dm = max(abs(a - float(b)) for a, b in zip(o["mean"], sp.smean))
-            mean_ok = dm <= tol
+            mean_ok = dm <= tolm
             if not mean_ok:
                 probs.append(Problem("correspondence", f"sensitive_mean_ {o['mean']} (shape {o['mean_shape']}) is not the vector of column means "
                                      f"{[float(v) for v in sp.smean]}", "C15.fitMean"))
@@ -512,11 +522,11 @@ class CHECK(Check):
                 probs.append(Problem("correspondence", f"fitted beta_ violates the normal equations of (S - sensitive_mean_) by {nres:.3g} "
                                      "(hypothesis isLstsq of the theorems)", "C15.isLstsq"))
             d = maxdiff(ft, proto.p_mat(mo[13]))
-            if d is None or d > tol * bscale:
+            if d is None or d > tolm * bscale:
                 probs.append(Problem("correspondence", f"fit_transform differs from the model's transform(mean_, beta_, alpha) by {d}",
                                      "C15.transform_entry"))
             d = maxdiff(o["new"], proto.p_mat(mo[15]))
-            if d is None or d > tol * bscale:
+            if d is None or d > tolm * bscale:
                 probs.append(Problem("correspondence", f"transform(new) differs from the model's transform(mean_, beta_, alpha) by {d}",
                                      "C15.transform_new_data"))
             # the lifted model with the fitted state: normal equations of the operands lstsq is called with, transform of the
@@ -526,10 +536,10 @@ class CHECK(Check):
                 probs.append(Problem("correspondence", f"fitted beta_ violates the normal equations of the lstsq operands lifted from the source by {nres_s:.3g}",
                                      "C15.src_uncorrelated"))
             d = maxdiff(ft, proto.p_mat(mo[17]))
-            if d is None or d > tol * bscale:
+            if d is None or d > tolm * bscale:
                 probs.append(Problem("correspondence", f"fit_transform differs from the transform lifted from the source by {d}", "C15.src_alpha_blend"))
             d = maxdiff(o["new"], proto.p_mat(mo[18]))
-            if d is None or d > tol * bscale:
+            if d is None or d > tolm * bscale:
                 probs.append(Problem("correspondence", f"transform(new) differs from the transform lifted from the source by {d}",
                                      "C15.src_transform_new_data"))
             if mean_ok and lstsq_ok:
